@@ -36,7 +36,7 @@ MANIFEST = {
 }
 
 KNOWN_KEY = "update-moves-dependency-to-sibling-lock"
-N_GENERATED = {"quick": 36, "thorough": 700}      # generated scenarios per tier (the corpus always runs first)
+N_GENERATED = {"quick": 14, "thorough": 500}      # generated scenarios per tier (the corpus always runs first)
 
 ERRMAP = {"VersionNotFound": "EVersionNotFound", "ProjectNotFound": "EProjectNotFound",
           "UnpublishedDependency": "EUnpublishedDependency", "NameConflict": "ENameConflict",
@@ -649,6 +649,10 @@ def run(tier, seed, replay):
         "lock_roundtrip: table invariants established by sort_table / load (proved for every table the model builds)",
         "update_idempotent only conditional (C31_update_idempotent_partial); refuted after an update that added a higher lock (known finding)",
         "git transport failures, lockfile v0 migration, Veryl.toml parse errors are not modelled"]
+    res.coverage["explanation"] = ("theorems over the Gallina model of lockfile.rs (coq/Props/C31.v); the model is tied to the real "
+                                   "Lockfile by step-by-step correspondence on generated git repositories and histories, and the "
+                                   "property's oracle is evaluated on the real lock tables; update idempotence is proved only "
+                                   "conditionally and refuted after an update that added a higher lock (known finding)")
     proved = C.prove(res, PID)
 
     ok, binary, log = C.harness_build("vh-meta")
@@ -690,7 +694,10 @@ def _run(res, tier, seed, replay, proved, binary, scratch):
         matrix = {(r, v): sv["matches"][j][i] for j, r in enumerate(G.REQS) for i, v in enumerate(G.VERSIONS)}
     res.obligation("semver probe (order and match matrix of the generator's pools)", matrix is not None, pr[:200])
     scs = G.corpus() + corpus_files() + [G.gen_scenario(rng, i, matrix) for i in range(n)]
+    import time as _t
+    t0 = _t.time()
     outs = impl_eval(binary, scs, scratch)
+    res.coverage["seconds_implementation"] = round(_t.time() - t0, 1)
     res.coverage["evaluations"] = 0
     panics = [(i, o["panic"]) for i, o in enumerate(outs) if "panic" in o]
     for i, p in panics[:3]:
@@ -729,8 +736,10 @@ def _run(res, tier, seed, replay, proved, binary, scratch):
 
     # model vs implementation
     mism = []
+    t0 = _t.time()
     try:
         vals, idl = model_eval([scs[i] for i in good], [outs[i]["semver"] for i in good])
+        res.coverage["seconds_model"] = round(_t.time() - t0, 1)
         for gi, i in enumerate(good):
             sc, out, ids = scs[i], outs[i], idl[gi]
             model = [canon_outcome_model(v) for v in vals[gi]]
